@@ -145,7 +145,7 @@ CMR_ERROR CMRctuComplementRowColumn(CMR* cmr, CMR_CHRMAT* matrix, size_t complem
         }
         else
         {
-          if (complementRowColumn1 + complementColumnEntries[row] + complementRowEntries[column] % 2 == 1)
+          if ((complementRowColumn1 + complementColumnEntries[row] + complementRowEntries[column]) % 2 == 1)
             isNonzero = !isNonzero;
         }
       }
